@@ -25,7 +25,8 @@ META = {
             'modules behind a real Dispatcher and the module attributes, the hardware stub, the reply and the view '
             'reconstructed from the update stream are compared with the expected abstract state after every step; '
             'seeded random longer histories over larger value sets are validated by TLC against Trace_Linked*.',
-    'note': 'Bounded: 2-3 members, 6 value tables, 4 limit kinds, 1-3 controllers; alphabets of 4-6 operations per '
+    'note': 'Bounded: 2-3 members, 6 value tables, 4 limit kinds, one output with 1-3 controllers or two outputs with 1-2 '
+            'controllers each (plus one earlier and one later node alive in the same process); alphabets of 4-6 operations per '
             'layout at full depth, wider alphabets / more layouts at depth 4-5 (thorough) and in the random traces; '
             'client/driver path, class structure (same/mixin/derived), int/float datatype and driver style are picked '
             'by the harness from the seed, not enumerated by TLC. Behaviours are not followed beyond a step that shows '
@@ -457,30 +458,67 @@ def _ctl_classes(style):
     return Out, Ctl
 
 
+class _Node:
+    """a bystander node in the same process: one output with one controller that is in control"""
+
+    def __init__(self, out, ctl, oname, cname):
+        boot()
+        self.srv = ServerStub()
+        self.o = out(oname, LoggerStub(oname), {'description': ''}, self.srv)
+        self.srv.secnode.add_module(self.o, oname)
+        self.c = ctl(cname, LoggerStub(cname), {'description': '', 'output_module': oname}, self.srv)
+        self.srv.secnode.add_module(self.c, cname)
+        for m in (self.o, self.c):
+            World.startup(m)
+        self.c.write_target(1.0)
+        self.cname = cname
+
+    def intact(self):
+        return bool(self.c.control_active) and getattr(self.o.controlled_by, 'name', None) == self.cname
+
+
 class ControlWorld(World):
-    ALL = ('c1', 'c2', 'c3')
+    """the node under test (o1 with a1..a<n1>, o2 with b1..b<n2>) between an earlier node created once per
+    process and a later node created after it (with the SAME module names, as a second node would have)"""
+    ALL = ('a1', 'a2', 'a3', 'b1', 'b2')
+    OUTS = ('o1', 'o2')
+    OUT_OF = {'a1': 'o1', 'a2': 'o1', 'a3': 'o1', 'b1': 'o2', 'b2': 'o2'}
+    earlier = {}
 
     def __init__(self, init, variant):
         super().__init__()
-        out, ctl = _ctl_classes(('always', 'ifnot')[variant % 2])
-        self.o = self.add('o', out)
-        self.ctls = {c: self.add(c, ctl, output_module='o') for c in self.ALL[:init['n']]}
+        style = ('always', 'ifnot')[variant % 2]
+        out, ctl = _ctl_classes(style)
+        if style not in self.earlier:
+            self.earlier[style] = _Node(out, ctl, 'oe', 'e1')
+        n1, n2 = divmod(init['lay'], 10)
+        built = self.ALL[:n1] + self.ALL[3:3 + n2]
+        self.outs = {o: self.add(o, out) for o in self.OUTS[:2 if n2 else 1]}
+        self.ctls = {c: self.add(c, ctl, output_module=self.OUT_OF[c]) for c in built}
         self.count = 0
-        for m in [self.o] + list(self.ctls.values()):
+        for m in list(self.outs.values()) + list(self.ctls.values()):
             self.startup(m)
+        # two of three executions run between an earlier and a later node, the third one alone in its view
+        self.others = [] if variant % 3 == 2 else [self.earlier[style], _Node(out, ctl, 'o1', 'a1')]
         self.connect()
 
     def obs(self):
         self.drain()
-        o = self.o
-        cby = o.controlled_by
-        names = {v: k for k, v in o.parameters['controlled_by'].datatype.export_datatype()['members'].items()}
         active = {c: bool(self.ctls[c].control_active) if c in self.ctls else False for c in self.ALL}
         vactive = {c: self.seen(self.ctls[c], 'control_active') if c in self.ctls else False for c in self.ALL}
         # a view entry that is not a boolean is reported as the opposite of the cache (TLC needs a boolean)
         vactive = {c: v if isinstance(v, bool) else not active[c] for c, v in vactive.items()}
-        return {'active': active, 'cby': getattr(cby, 'name', repr(cby)), 'vactive': vactive,
-                'vcby': names.get(self.seen(o, 'controlled_by'), 'unknown')}
+        cby, vcby = {}, {}
+        for oname in self.OUTS:
+            o = self.outs.get(oname)
+            if o is None:
+                cby[oname] = vcby[oname] = 'self'
+                continue
+            names = {v: k for k, v in o.parameters['controlled_by'].datatype.export_datatype()['members'].items()}
+            cby[oname] = getattr(o.controlled_by, 'name', repr(o.controlled_by))
+            vcby[oname] = names.get(self.seen(o, 'controlled_by'), 'unknown')
+        return {'active': active, 'cby': cby, 'vactive': vactive, 'vcby': vcby,
+                'foreign': all(nd.intact() for nd in self.others)}
 
     def step(self, a, via):
         act = a['act']
@@ -489,36 +527,46 @@ class ControlWorld(World):
         if act == 'take':
             self.access(via, 'w', self.ctls[a['c']], 'target', value)
         elif act == 'self':
-            self.access(via, 'w', self.o, 'target', value)
+            self.access(via, 'w', self.outs[a['o']], 'target', value)
         elif act == 'upd':
-            self.o.update_target(a['c'], value)
+            self.outs[self.OUT_OF[a['c']]].update_target(a['c'], value)
         return self.obs()
 
     @staticmethod
     def expect(a, e):
-        return {'active': e['active'], 'cby': e['cby'], 'vactive': e['active'], 'vcby': e['cby']}
+        return {'active': e['active'], 'cby': e['cby'], 'vactive': e['active'], 'vcby': e['cby'],
+                'foreign': e['foreign']}
 
-    @staticmethod
-    def symptom(a, o, prev):
-        on = sorted(c for c, v in o['active'].items() if v)
-        if len(on) > 1:
-            return 'two controllers active'
-        if on != ([] if o['cby'] == 'self' else [o['cby']]):
-            return 'controlled_by does not name the active controller'
+    @classmethod
+    def symptom(cls, a, o, prev):
+        mine = a.get('o') or cls.OUT_OF.get(a.get('c'))
+        for oname in cls.OUTS:
+            if prev and mine and oname != mine and (
+                    o['cby'][oname] != prev['cby'][oname]
+                    or any(o['active'][c] != prev['active'][c] for c in cls.ALL if cls.OUT_OF[c] == oname)):
+                return 'operation on one output changed the other output'
+        for oname in cls.OUTS:
+            on = sorted(c for c, v in o['active'].items() if v and cls.OUT_OF[c] == oname)
+            if len(on) > 1:
+                return 'two controllers active'
+            if on != ([] if o['cby'][oname] == 'self' else [o['cby'][oname]]):
+                return 'controlled_by does not name the active controller'
+        if not o['foreign']:
+            return 'control state of another node changed'
         if (o['vactive'], o['vcby']) != (o['active'], o['cby']):
             return 'stream != cache'
         return 'other'
 
     @staticmethod
     def layout_of(init):
-        return {'n': init['n']}
+        return {'lay': init['lay']}
 
 
 # one observed field and how to falsify it (binding self-test of the trace specifications)
 CORRUPT = {'LinkedStruct': ('str', lambda v: {k: (x + 1) % 10 for k, x in v.items()}),
            'LinkedFloatEnum': ('val', lambda v: v + 1),
            'LinkedLimits': ('last', lambda v: 'ok' if v == 'refused' else 'refused'),
-           'LinkedControl': ('cby', lambda v: 'c1' if v != 'c1' else 'self')}
+           'LinkedControl': ('cby', lambda v: dict(v, o1='a1' if v['o1'] != 'a1' else 'self'))}
 WORLDS = {'LinkedStruct': StructWorld, 'LinkedFloatEnum': FloatEnumWorld, 'LinkedLimits': LimitsWorld,
           'LinkedControl': ControlWorld}
 ASSIGN_ONLY = {'as', 'am', 'ai', 'upd'}          # operations that exist only on the driver side
@@ -674,16 +722,17 @@ def _random_trace(arg):
                 return {'act': act, 'a': rnd.randint(0, 8), 'b': rnd.randint(0, 8)}
             return {'act': act, 'v': rnd.randint(0, 8)}
     else:
-        nctl = rnd.randint(1, 3)
-        init = {'act': 'init', 'n': nctl}
-        names = ControlWorld.ALL[:nctl]
+        lay = rnd.choice((10, 20, 30, 11, 21, 22, 21, 22))
+        init = {'act': 'init', 'lay': lay}
+        names = ControlWorld.ALL[:lay // 10] + ControlWorld.ALL[3:3 + lay % 10]
+        outs = ControlWorld.OUTS[:2 if lay % 10 else 1]
 
         def pick():
             r = rnd.random()
             if r < 0.45:
                 return {'act': 'take', 'c': rnd.choice(names)}
             if r < 0.65:
-                return {'act': 'self'}
+                return {'act': 'self', 'o': rnd.choice(outs)}
             return {'act': 'upd', 'c': rnd.choice(names)}
     actions = [pick() for _ in range(n)]
     vias = _vias(sub, actions, 3, rnd)
